@@ -123,6 +123,22 @@ def gen_call(lib, k, call):
             S.append("%s = %s" % (vn, flit(False if T == "bool" else 0, T) if ir.TYPES[T]["k"] != "r" else "0"))
             A.append(vn)
             Pn.append(prn(T, n, vn))
+        elif kd == "vec_inout" and p.get("alloc"):
+            vals = args[n]
+            D.append("%s, allocatable :: %s(:)" % (ftype(T), vn))
+            S.append("allocate(%s(%d))" % (vn, len(vals)))
+            for i, x in enumerate(vals):
+                S.append("%s(%d) = %s" % (vn, i + 1, flit(x, T)))
+            A.append(vn)
+            Pn.append(prn_arr(T, n, vn))
+        elif kd == "vec_out" and p.get("alloc"):
+            D.append("%s, allocatable :: %s(:)" % (ftype(T), vn))
+            if k % 2:
+                # already allocated with another extent: the wrapper gives it the library's extent
+                S.append("allocate(%s(%d))" % (vn, [7, 1, 3][k % 3]))
+                S.append("%s = -7" % vn)
+            A.append(vn)
+            Pn.append(prn_arr(T, n, vn))
         elif kd in ("arr_in", "arr_inout", "vec_in", "vec_inout"):
             vals = args[n]
             D.append("%s :: %s(%d)" % (ftype(T), vn, len(vals)))
@@ -299,6 +315,11 @@ def conv_out(call, p, want, lib=None, model_out=None):
     def uw(vals_):
         # Fortran has no unsigned integers: same bits, read as signed
         return [str(ir.wrap_int(int(x), {16: "short", 32: "int", 64: "long"}[ir.TYPES[Tp]["bits"]])) for x in vals_] if uns else vals_
+    if kd in ("vec_out", "vec_inout") and p.get("alloc"):
+        # allocatable argument: exactly what the library left, extent included
+        tag, n, vals = want.split(":")
+        vals = uw([x for x in vals.split(",") if x != ""])
+        return "%s:%d:%s" % (tag, len(vals), ",".join(vals))
     if kd == "vec_out":
         L = fl[p["name"]]
         tag, n, vals = want.split(":")
